@@ -139,3 +139,17 @@ Theorem C15_aes_patch_idempotent :
   forall (p d : bool), aes_step (aes_step p d) d = aes_step p d.
 Proof. intros [|] [|]; reflexivity. Qed.
 Print Assumptions C15_aes_patch_idempotent.
+
+(* with the lazy installation the RESULT for an AES-128 file depends on the history ... *)
+Theorem C15_aes_result_history_refuted :
+  exists (history : list pdf_kind) (k : pdf_kind),
+    fst (aes_extract false (aes_docs false false history) k) <> fst (aes_extract false false k).
+Proof. exists [AesAtOpen], AesLate. vm_compute. discriminate. Qed.
+Print Assumptions C15_aes_result_history_refuted.
+
+(* ... with the eager installation it does not, for every history and every kind of file *)
+Theorem C15_aes_result_history_independent :
+  forall (history : list pdf_kind) (k : pdf_kind),
+    fst (aes_extract true (aes_docs true false history) k) = fst (aes_extract true false k).
+Proof. intros history k. destruct k; reflexivity. Qed.
+Print Assumptions C15_aes_result_history_independent.
